@@ -39,6 +39,28 @@ def class_tests(expr, var):
                 yield tuple(class_names_in(n.comparators[0])), n
 
 
+def class_tests_signed(expr, var):
+    """Like class_tests, with the polarity of each test inside ``expr``:
+    (names, node, positive) where positive is False under an odd number of ``not``
+    (or for ``is not`` / ``not in`` / ``!=`` comparisons)."""
+    def rec(e, pos):
+        if isinstance(e, ast.UnaryOp) and isinstance(e.op, ast.Not):
+            for x in rec(e.operand, not pos):
+                yield x
+        elif isinstance(e, ast.BoolOp):
+            for v in e.values:
+                for x in rec(v, pos):
+                    yield x
+        else:
+            for names, n in class_tests(e, var):
+                yield names, n, pos
+            if isinstance(e, ast.Compare) and len(e.ops) == 1 and isinstance(e.ops[0], (ast.IsNot, ast.NotEq, ast.NotIn)):
+                pe = ast.Compare(left=e.left, ops=[ast.Is()], comparators=e.comparators)
+                for names, _n in class_tests(pe, var):
+                    yield names, e, not pos
+    return list(rec(expr, True))
+
+
 def raises_unconditionally(body):
     """True when the statement list ends in a raise on every path (shallow)."""
     if not body:
